@@ -114,7 +114,20 @@ def valid(hyps, goal, timeout_ms, fast_reject=False, quant_retry=True):
     for h in hyps:
         s.add(h)
     s.add(z3.Not(goal))
-    return s.check() == z3.unsat
+    r = s.check()
+    if r == z3.unknown and not fast_reject:
+        # z3 gives up on  exists i. (0 <= i < n and start + i == p)  in the presence of unrelated disjunctions
+        # ("incomplete quantifiers"); light quantifier elimination (equivalence preserving) solves the index
+        try:
+            s2 = z3.Then(z3.Tactic("simplify"), z3.Tactic("qe-light"), z3.Tactic("smt")).solver()
+            s2.set("timeout", min(timeout_ms, 3000))
+            for h in hyps:
+                s2.add(h)
+            s2.add(z3.Not(goal))
+            r = s2.check()
+        except z3.Z3Exception:
+            pass
+    return r == z3.unsat
 
 
 def symbols(t, memo={}):
@@ -179,7 +192,40 @@ def is_zero_sum(a, hyps, timeout_ms, depth=0):
     return valid(hyps, body == zero_of(a.sort()), timeout_ms, fast_reject=True)
 
 
-def abstract(goal, hyps, timeout_ms=3000, depth=0, zeros=False, cross=False):
+def one_point(a, hyps, timeout_ms):
+    """Rule P (one-point rule, lean/BigSum.lean `bigsum_single`): for a closed sum whose summand is
+    `ite(G(i), V(i), 0)` over an integer index where the guard pins the index to one value e (the query
+    `G(i) -> i == e` is VALIDATED for a fresh i under the hypotheses - the candidate e comes from an equality
+    conjunct of G, linear in i with coefficient +-1), the sum equals the summand at e. Returns that term or None.
+    Sound: every summand at i != e is 0."""
+    la = a.arg(0)
+    if not z3.is_quantifier(la) or not la.is_lambda() or la.sort().domain() != z3.IntSort():
+        return None
+    i = z3.Const(f"bp!{next(_counter)}", z3.IntSort())
+    body = z3.simplify(z3.Select(la, i))
+    if not (z3.is_app(body) and body.decl().kind() == z3.Z3_OP_ITE):
+        return None
+    G, V, Z = body.children()
+    if not z3.simplify(Z == zero_of(a.sort())).eq(z3.BoolVal(True)):
+        return None
+    conj = list(G.children()) if z3.is_and(G) else [G]
+    zero, one = z3.IntVal(0), z3.IntVal(1)
+    for c in conj:
+        if not (z3.is_eq(c) and c.arg(0).sort() == z3.IntSort()):
+            continue
+        d = c.arg(0) - c.arg(1)
+        d0 = z3.simplify(z3.substitute(d, (i, zero)))
+        d1 = z3.simplify(z3.substitute(d, (i, one)))
+        coef = z3.simplify(d1 - d0)
+        if not z3.is_int_value(coef) or coef.as_long() not in (1, -1):
+            continue
+        e = z3.simplify(-d0) if coef.as_long() == 1 else d0
+        if valid(hyps, z3.Implies(G, i == e), timeout_ms, fast_reject=True):
+            return z3.simplify(z3.substitute(body, (i, e)))
+    return None
+
+
+def abstract(goal, hyps, timeout_ms=3000, depth=0, zeros=False, cross=False, points=False):
     """Replace provably equal outermost sums in `goal` by common fresh constants (and all-zero sums by 0).
     With cross=True closed sums of the hypotheses are candidates too (a sum computed by the code, which sits in
     a path condition, against the sum written in the contract); only goal/goal and goal/hypothesis pairs are
@@ -189,6 +235,12 @@ def abstract(goal, hyps, timeout_ms=3000, depth=0, zeros=False, cross=False):
     seen = set()
     collect_bigsums(goal, sums, seen)
     sums = [s for s in sums if not has_free_vars(s)]
+    if points:
+        ps = [(s, one_point(s, hyps, min(timeout_ms, 3000))) for s in sums]
+        ps = [(s, t) for s, t in ps if t is not None]
+        if ps:
+            goal = z3.substitute(goal, *ps)
+            sums = [s for s in sums if not any(s.eq(z) for z, _ in ps)]
     n_goal = len(sums)
     if cross and n_goal:
         more = []
@@ -231,15 +283,22 @@ def abstract(goal, hyps, timeout_ms=3000, depth=0, zeros=False, cross=False):
 def skolemize(goal):
     """Strip outer universal quantifiers (fresh constants) and split  Or(Not g, c) / Implies(g, c)."""
     extra = []
-    while z3.is_quantifier(goal) and goal.is_forall():
-        vs = [z3.Const(f"sk!{next(_counter)}!{goal.var_name(i)}", goal.var_sort(i)) for i in range(goal.num_vars())]
-        goal = z3.substitute_vars(goal.body(), *reversed(vs))
-    if z3.is_implies(goal):
-        extra.append(goal.arg(0))
-        goal = goal.arg(1)
-    elif z3.is_or(goal) and goal.num_args() == 2 and z3.is_not(goal.arg(0)):
-        extra.append(goal.arg(0).arg(0))
-        goal = goal.arg(1)
+    for _ in range(8):      # forall x. (g -> forall y. (h -> c))  ~>  c  with hypotheses g, h (fresh x, y)
+        changed = False
+        while z3.is_quantifier(goal) and goal.is_forall():
+            vs = [z3.Const(f"sk!{next(_counter)}!{goal.var_name(i)}", goal.var_sort(i)) for i in range(goal.num_vars())]
+            goal = z3.substitute_vars(goal.body(), *reversed(vs))
+            changed = True
+        if z3.is_implies(goal):
+            extra.append(goal.arg(0))
+            goal = goal.arg(1)
+            changed = True
+        elif z3.is_or(goal) and goal.num_args() == 2 and z3.is_not(goal.arg(0)):
+            extra.append(goal.arg(0).arg(0))
+            goal = goal.arg(1)
+            changed = True
+        if not changed:
+            break
     return goal, extra
 
 
@@ -258,4 +317,8 @@ def prove_with_congruence(hyps, goal, timeout_ms=5000):
         return True
     # third attempt (only reached when the obligation would otherwise stay undecided): sums of the hypotheses
     g4, h4 = abstract(g, h2, min(timeout_ms, 8000), cross=True)
-    return (h4 is not h2) and valid(h4, g4, timeout_ms)
+    if (h4 is not h2) and valid(h4, g4, timeout_ms):
+        return True
+    # fourth attempt: one-point rule P for sums whose guard pins the index (`for i in range(n): d[start + i] += 1`)
+    g5, h5 = abstract(g, h2, min(timeout_ms, 8000), zeros=True, points=True)
+    return (g5 is not g) and valid(h5, g5, timeout_ms)
